@@ -6,7 +6,10 @@ THEOREMS = ['C03', 'C03_partial_views']
 
 
 def check(tier, seed):
-    return scriptcheck.check(PROP, tier, seed, 'holds_C03', THEOREMS,
+    return scriptcheck.check(PROP, tier, seed, 'holds_C03', THEOREMS, ext=True,
+                             kf=[('D36', '(fun c => kf_multiset_duplicates (sc_a c) (sc_b c))',
+                                  'a multiset with repeated elements: the matcher collapses duplicates, so the reported '
+                                  'cost differs from the sum of the listed edits (or the edit never terminates)')],
                              rule_extra='Views compared per case: own cost of every compound in the nested script, the sum over '
                                         'get_all_edits() (fresh trees), diff().edited_cost() (fresh trees), the top-level edit.')
 
